@@ -28,6 +28,7 @@ type val struct {
 	elems []*val
 	keys  []string
 	vals  []*val
+	qk    bool // object: member keys written in double quotes (JSON style)
 }
 
 var scalarPool = []string{"a", "b", "1", "x y", "true", "null", "~", "a ", " a"}
@@ -52,7 +53,7 @@ func genVal(r *hx.Rng, depth int, exprPct int) *val {
 		return v
 	}
 	n := r.Intn(4)
-	v := &val{kind: 2}
+	v := &val{kind: 2, qk: r.Chance(1, 4)}
 	perm := r.Perm(len(objKeyPool))
 	seen := map[string]bool{}
 	for i := 0; i < n; i++ {
@@ -90,7 +91,7 @@ func mutate(r *hx.Rng, v *val) *val {
 		}
 		return w
 	default:
-		w := &val{kind: 2}
+		w := &val{kind: 2, qk: v.qk != r.Chance(1, 4)}
 		perm := r.Perm(len(v.keys))
 		for _, i := range perm {
 			if r.Chance(1, 4) {
@@ -148,6 +149,9 @@ func (v *val) yaml() string {
 	default:
 		parts := []string{}
 		for i, k := range v.keys {
+			if v.qk {
+				k = "\"" + k + "\""
+			}
 			parts = append(parts, k+": "+v.vals[i].yaml())
 		}
 		return "{" + strings.Join(parts, ", ") + "}"
@@ -155,15 +159,41 @@ func (v *val) yaml() string {
 }
 
 type genRow struct {
-	key  string
-	expr string // non-empty: row given by an expression
-	vals []*val
+	key   string
+	expr  string // non-empty: row given by an expression
+	style int    // how the expression is written: 0 plain, 1 folded block, 2 literal block, 3 double-quoted, 4 literal block keeping the final line breaks
+	qk    bool   // the key is written in double quotes
+	vals  []*val
 }
 
 type genComb struct {
 	expr string
+	qk   bool
 	keys []string
 	vals []*val
+}
+
+// exprScalar writes a value that is one placeholder in the given style, as the value of a key
+// whose line starts with ind
+func exprScalar(ind, expr string, style int) string {
+	switch style {
+	case 1:
+		return ">\n" + ind + "  " + expr
+	case 2:
+		return "|\n" + ind + "  " + expr
+	case 3:
+		return "\"" + expr + "\""
+	case 4:
+		return "|+\n" + ind + "  " + expr + "\n"
+	}
+	return expr
+}
+
+func quoteKey(k string, q bool) string {
+	if q {
+		return "\"" + k + "\""
+	}
+	return k
 }
 
 type genMatrix struct {
@@ -201,9 +231,12 @@ func genMatrixCase(r *hx.Rng) *genMatrix {
 			continue
 		}
 		used[strings.ToLower(k)] = true
-		row := genRow{key: k}
+		row := genRow{key: k, qk: r.Chance(1, 6)}
 		if r.Chance(1, 8) {
 			row.expr = "${{ fromJSON(env.R) }}"
+			if r.Chance(1, 2) {
+				row.style = 1 + r.Intn(4)
+			}
 		} else {
 			n := r.Intn(5)
 			for j := 0; j < n; j++ {
@@ -230,7 +263,7 @@ func genMatrixCase(r *hx.Rng) *genMatrix {
 				cs = append(cs, genComb{expr: "${{ fromJSON(env.C) }}"})
 				continue
 			}
-			c := genComb{}
+			c := genComb{qk: r.Chance(1, 6)}
 			nk := r.Intn(3) + 1
 			p := r.Perm(len(rowKeyPool))
 			seen := map[string]bool{}
@@ -286,14 +319,14 @@ func (m *genMatrix) workflow() string {
 		for _, r := range m.rows {
 			empty = false
 			if r.expr != "" {
-				fmt.Fprintf(&b, "        %s: %s\n", r.key, r.expr)
+				fmt.Fprintf(&b, "        %s: %s\n", quoteKey(r.key, r.qk), exprScalar("        ", r.expr, r.style))
 				continue
 			}
 			parts := []string{}
 			for _, v := range r.vals {
 				parts = append(parts, v.yaml())
 			}
-			fmt.Fprintf(&b, "        %s: [%s]\n", r.key, strings.Join(parts, ", "))
+			fmt.Fprintf(&b, "        %s: [%s]\n", quoteKey(r.key, r.qk), strings.Join(parts, ", "))
 		}
 		writeCombs := func(name, expr string, cs []genComb) {
 			empty = false
@@ -316,7 +349,7 @@ func (m *genMatrix) workflow() string {
 					if i == 0 {
 						lead = "          - "
 					}
-					fmt.Fprintf(&b, "%s%s: %s\n", lead, k, c.vals[i].yaml())
+					fmt.Fprintf(&b, "%s%s: %s\n", lead, quoteKey(k, c.qk), c.vals[i].yaml())
 				}
 			}
 		}
@@ -662,7 +695,7 @@ func permuteVal(r *hx.Rng, v *val) *val {
 		}
 		return w
 	case 2:
-		w := &val{kind: 2}
+		w := &val{kind: 2, qk: v.qk}
 		for _, i := range r.Perm(len(v.keys)) {
 			w.keys = append(w.keys, v.keys[i])
 			w.vals = append(w.vals, permuteVal(r, v.vals[i]))
@@ -677,7 +710,7 @@ func permuteMatrix(r *hx.Rng, m *genMatrix) *genMatrix {
 	n.rows = nil
 	for _, i := range r.Perm(len(m.rows)) {
 		row := m.rows[i]
-		nr := genRow{key: row.key, expr: row.expr}
+		nr := genRow{key: row.key, expr: row.expr, style: row.style, qk: row.qk}
 		for _, v := range row.vals {
 			nr.vals = append(nr.vals, permuteVal(r, v))
 		}
@@ -686,7 +719,7 @@ func permuteMatrix(r *hx.Rng, m *genMatrix) *genMatrix {
 	pc := func(cs []genComb) []genComb {
 		var out []genComb
 		for _, c := range cs {
-			nc := genComb{expr: c.expr}
+			nc := genComb{expr: c.expr, qk: c.qk}
 			for _, i := range r.Perm(len(c.keys)) {
 				nc.keys = append(nc.keys, c.keys[i])
 				nc.vals = append(nc.vals, permuteVal(r, c.vals[i]))
@@ -777,7 +810,14 @@ func fidelity(g *genMatrix, m *actionlint.Matrix) string {
 		return ""
 	}
 	for _, r := range g.rows {
-		if r.expr != "" || len(r.vals) == 0 {
+		if r.expr != "" {
+			// a row given by one placeholder is an expression row however the scalar is written
+			if row, ok := m.Rows[strings.ToLower(r.key)]; !ok || row.Expression == nil {
+				return "row " + r.key + " given by an expression is not read as one"
+			}
+			continue
+		}
+		if len(r.vals) == 0 {
 			continue // (an empty row is a syntax error of the workflow)
 		}
 		row, ok := m.Rows[strings.ToLower(r.key)]
